@@ -7,12 +7,61 @@ import sys
 import numpy as np
 
 
+def equivariance(p, rng):
+    """scale(a*x+b) = |a| scale(x), loc(a*x+b) = a loc(x)+b, zscore(a*x+b) = sign(a) zscore(x) on the real estimators,
+    for the solver's x (if any) and for data with ties / a sample at the median."""
+    import warnings
+    from sigpyproc.core import stats
+    n, a = p["n"], p["a"][0] / p["a"][1]
+    b = float(p.get("b", 0.75))
+    xs = []
+    if "x" in p:
+        xs.append(np.array(p["x"], dtype=np.float64))
+    base = np.round(rng.normal(size=n) * 4) + 10
+    xs += [base, np.sort(base)[::-1].copy(), np.concatenate([base[: n // 2], base[: n - n // 2]]), rng.normal(size=n) * 3 + 1]
+    bad = []
+    for x in xs:
+        if not np.all(np.abs(x) < 1e6):
+            continue
+        y = a * x + b
+        with warnings.catch_warnings():
+            warnings.simplefilter("ignore")
+            try:
+                if p["kind"] == "equiv" and p["what"] == "scale":
+                    sx, sy = np.asarray(stats.estimate_scale(x, p["method"])), np.asarray(stats.estimate_scale(y, p["method"]))
+                    if np.any((np.abs(sx) > 0) & (np.abs(sx) < 1e-4)):
+                        continue
+                    if not np.allclose(sy, abs(a) * sx, rtol=1e-6, atol=1e-9):
+                        bad.append(f"scale[{p['method']}]({a}*x+{b}) = {sy.tolist()} but |a|*scale(x) = {(abs(a) * sx).tolist()} for x = {x.tolist()}")
+                elif p["kind"] == "equiv":
+                    lx, ly = stats.estimate_loc(x, p["method"]), stats.estimate_loc(y, p["method"])
+                    if not np.allclose(ly, a * lx + b, rtol=1e-9, atol=1e-9):
+                        bad.append(f"loc[{p['method']}]({a}*x+{b}) = {ly} but a*loc(x)+b = {a * lx + b} for x = {x.tolist()}")
+                else:
+                    zx, zy = stats.estimate_zscore(x, p["loc"], p["scale"], 0), stats.estimate_zscore(y, p["loc"], p["scale"], 0)
+                    sx = np.asarray(zx.scale, dtype=np.float64)
+                    sraw = np.asarray(stats.estimate_scale(x.astype(np.float32), p["scale"], 0)) if p["scale"] != "norm" else np.ones(1)
+                    if p["scale"] == "norm" or p["loc"] == "norm":
+                        continue     # 'norm' switches the estimator off: no equivariance is claimed for it
+                    if np.any(np.abs(sraw) < 1e-4):
+                        continue     # degenerate scale: the unit-scale fallback applies
+                    if not np.allclose(zy.data, np.sign(a) * zx.data, rtol=2e-3, atol=2e-3):
+                        bad.append(f"zscore[{p['loc']},{p['scale']}]({a}*x+{b}) = {zy.data.tolist()} but sign(a)*zscore(x) = {(np.sign(a) * zx.data).tolist()} for x = {x.tolist()}")
+            except Exception as e:  # noqa: BLE001
+                bad.append(f"raised {type(e).__name__}: {e}")
+    for m in bad[:3]:
+        print("MISMATCH:", m[:700])
+    return 1 if bad else 0
+
+
 def main(p):
     from sigpyproc import utils
     from sigpyproc.core import stats
     rng = np.random.default_rng(11)
     bad = []
     print("params:", json.dumps(p))
+    if p["kind"] in ("equiv", "zequiv"):
+        return equivariance(p, rng)
     shape = tuple(p["shape"])
     x = rng.normal(size=shape) * 3 + 1
     axis = p.get("axis")
